@@ -29,6 +29,9 @@ RATES = {
     "3.7GHz": (3.7, "GHz"),
     "8Hz": (8.0, "Hz"),
     "3Hz": (3.0, "Hz"),
+    # single-precision VALUES (a Quantity built from a float32 header field); the rate itself is exactly that float32 number
+    "third_Hz_f32": (np.float32(1 / 3), "Hz"),
+    "3.7GHz_f32": (np.float32(3.7), "GHz"),
 }
 
 STARTS = {
